@@ -6,7 +6,7 @@ from dataclasses import dataclass, field
 
 from ..core import Ctx
 from ..match import Fact, arg, call_name, calls, fact_of, facts_at, is_param, local_defs, names_in, resolve, single_def
-from ..model import AnalysisError, FuncInfo, ancestors, chain, clone, enclosing_stmt, norm, strip_cast, walk_no_nested
+from ..model import AnalysisError, FuncInfo, ancestors, chain, clone, enclosing_stmt, head, norm, strip_cast, walk_no_nested
 
 LEVEL = "other"
 EXPLANATION = (
@@ -3817,6 +3817,7 @@ class _HandOver:
         self.addr, self.pkt = ("param", root.params()[1]), ("param", root.params()[2])
         self.handed_sites: list = []
         self.calls_by_id: dict = {}
+        self.lost: list = []          # places where a value that carries the caller's packet went out of sight (-> undecided, never "not sent")
         self._memo: dict = {}
 
     def run(self) -> set:
@@ -3845,16 +3846,67 @@ class _HandOver:
                 return ("lazy", self.aiter(e, env, fi))
         return None
 
-    @staticmethod
-    def read_once(fn, name: str) -> bool:
-        return sum(1 for n in ast.walk(fn) if isinstance(n, ast.Name) and n.id == name and isinstance(n.ctx, ast.Load)) == 1 and \
+    WRAPPERS = ("iter", "list", "tuple")                 # same elements, same order
+    COMBINERS = ("iter", "list", "tuple", "chain", "itertools.chain")
+
+    @classmethod
+    def rebinding(cls, st, name: str) -> bool:
+        """`x = iter(x)` / `x = list(x)` / `x = tuple(x)`: the name keeps standing for the same elements in the same order, and the
+        value it stood for before is reachable through the new binding only."""
+        if isinstance(st, ast.AnnAssign) and st.value is not None:
+            tgs = [st.target]
+        elif isinstance(st, ast.Assign):
+            tgs = st.targets
+        else:
+            return False
+        v = st.value
+        return len(tgs) == 1 and isinstance(tgs[0], ast.Name) and tgs[0].id == name and isinstance(v, ast.Call) and not v.keywords \
+            and chain(v.func) in cls.WRAPPERS and len(v.args) == 1 and isinstance(v.args[0], ast.Name) and v.args[0].id == name
+
+    @classmethod
+    def read_once(cls, fn, name: str) -> bool:
+        skip = {id(st.value.args[0]) for st in ast.walk(fn) if cls.rebinding(st, name)}
+        return sum(1 for n in ast.walk(fn) if isinstance(n, ast.Name) and n.id == name and isinstance(n.ctx, ast.Load)
+                   and id(n) not in skip) == 1 and \
             not any(isinstance(n, (ast.Global, ast.Nonlocal)) and name in n.names for n in ast.walk(fn))
+
+    def carries(self, v) -> bool:
+        """The abstract value v contains one of the two parameters of TunnelEndpoint.send."""
+        if v in (self.addr, self.pkt):
+            return True
+        return isinstance(v, tuple) and len(v) > 1 and v[0] in ("tuple", "lazy", "partial") \
+            and any(self.carries(x) for x in (v[-1] if isinstance(v[-1], tuple) else ()))
 
     def keep(self, fn, name: str, v):
         """The abstract value to remember for `name` of function fn: a one-shot iterable only when the name is read once."""
         if isinstance(v, tuple) and v[0] == "lazy" and not self.read_once(fn, name):
+            if self.carries(v):
+                self.lost.append(f"`{name}` of {getattr(fn, 'name', '<lambda>')} (an iterable that is read more than once)")
             return None
         return v
+
+    def recognised_use(self, n: ast.Name, a, fi: FuncInfo | None, closures) -> bool:
+        """The read n (in statement / condition a) of a name that holds a one-shot iterable with the caller's packet in it is one
+        whose effect this walker models: the iterable of a `for`, the value of an assignment, an argument of a followed function -
+        directly or wrapped in iter / list / tuple / chain."""
+        cur = n
+        while True:
+            up = parent_of(cur)
+            if isinstance(up, ast.Call) and not up.keywords and cur in up.args and chain(up.func) in self.COMBINERS:
+                cur = up
+                continue
+            break
+        if cur is a:
+            return isinstance(up, (ast.For, ast.AsyncFor)) and up.iter is a
+        if isinstance(up, (ast.Assign, ast.AnnAssign)) and up.value is cur:
+            return True
+        if isinstance(up, ast.keyword):
+            cur, up = up, parent_of(up)
+        if isinstance(up, ast.Call) and (cur in up.args or cur in up.keywords):
+            if isinstance(up.func, ast.Name) and up.func.id in closures:
+                return True
+            return fi is not None and _new_helper(self.ctx, fi, up) is not None
+        return False
 
     def aiter(self, e, env, fi: FuncInfo | None = None, depth: int = 2) -> tuple:
         """The values the first iterations over expression e bind, as far as they are known: the elements of a display / known tuple,
@@ -4025,6 +4077,8 @@ class _HandOver:
             if isinstance(t, ast.Name):
                 env[t.id] = self.keep(fn, t.id, v)
             elif isinstance(t, (ast.Tuple, ast.List)):
+                if isinstance(v, tuple) and v[0] == "lazy" and self.carries(v):
+                    self.lost.append(f"an iterable unpacked into {norm(t)}")
                 vs = list(v[1]) if isinstance(v, tuple) and v[0] == "tuple" and len(v[1]) == len(t.elts) else [None] * len(t.elts)
                 for x, y in zip(t.elts, vs):
                     targets(x.value if isinstance(x, ast.Starred) else x, None if isinstance(x, ast.Starred) else y, env)
@@ -4047,6 +4101,11 @@ class _HandOver:
                 if isinstance(a, (ast.FunctionDef, ast.AsyncFunctionDef)):
                     closures[a.name] = a
                 elif not isinstance(a, (ast.ClassDef,)):
+                    for x in walk_no_nested(a):
+                        if isinstance(x, ast.Name) and isinstance(x.ctx, ast.Load):
+                            v = env.get(x.id)
+                            if isinstance(v, tuple) and v[0] == "lazy" and self.carries(v) and not self.recognised_use(x, a, fi, closures):
+                                self.lost.append(f"`{x.id}` in `{head(a)}`")
                     for c in sorted((x for x in walk_no_nested(a) if isinstance(x, ast.Call)), key=lambda x: (x.end_lineno, x.end_col_offset)):
                         ev = self.event(c, fi, env, closures, depth)
                         if ev is not None:
@@ -4071,6 +4130,8 @@ class _HandOver:
                         src = strip_cast(src.args[0])
                     lazy = isinstance(src, ast.Name) and isinstance(env.get(src.id), tuple) and env.get(src.id)[0] == "lazy"
                     if lazy and any(isinstance(x, (ast.For, ast.AsyncFor, ast.While)) for x in ancestors(parent_of(a)) if x is not fn):
+                        if self.carries(env.get(src.id)):
+                            self.lost.append(f"`{src.id}` walked by a loop inside a loop")
                         known = ()                      # a one-shot iterable walked by a loop that may run again: later runs see the rest only
                     env[f"<iter {id(parent_of(a))}>"] = (known, 0)       # the iterable of a `for` is evaluated here, once
             for v, lab in node.succ:
@@ -4119,6 +4180,11 @@ def rule_payload_conservation(ctx: Ctx) -> None:
     for c in walk.handed_sites:
         ctx.check(True, "payload-conservation", te, c, "TunnelEndpoint.send passes its own (address, packet) to send_data", "")
     bad = sorted({sent for handed, sent in outcomes if sent and not handed})
+    if bad and walk.lost:
+        # the walker lost sight of a value that contains the caller's own (address, packet): what the unexplained send_data carries
+        # may be exactly that packet
+        raise AnalysisError("undecided: the iterable that carries TunnelEndpoint.send's own (address, packet) is used in a way that is "
+                            "not followed: " + "; ".join(sorted(set(walk.lost))[:3]))
     for c in [walk.calls_by_id[i] for i in bad]:
         ctx.check(False, "payload-conservation", te, c, "other packets are tunnelled only on paths that also hand over the caller's own packet",
                   "TunnelEndpoint.send tunnels a packet other than the one it was given on a path that never passes its own (address, packet) "
